@@ -13,6 +13,9 @@ is compared, and only differences that change what the matched expression comput
       complement (the complement appears when a test is inverted and its branches exchanged)    n < k -> n <= k,  a != b -> a > b
   D5  a constant index into the same object changed                                      stack[-1] -> stack[0]
   D6  the operands of the same non-commutative operator are exchanged                    a - b -> b - a
+  D9  a call statement made for its effect (not a container method, not logging) is gone and nothing in the function calls that
+      callee any more (and the callee still exists)                                       node_impl.clear(node)  ->  (nothing)
+  D10 an operand compared with None / False on the reference tree is now only tested by truthiness   if step is not None -> if step
   D7  one positional argument that is a parameter of the enclosing function is no longer passed, the other
       arguments unchanged and in order                                                    merge(state, *states) -> merge(*states)
 
@@ -32,6 +35,7 @@ COMMUTATIVE_CALLEES = {'zip', 'max', 'min', 'union', 'intersection', 'add', 'mul
                        'assertEqual', 'assert_allclose', 'assert_array_equal', 'symmetric_difference'}
 _COMPLEMENT = {'Lt': 'GtE', 'GtE': 'Lt', 'Gt': 'LtE', 'LtE': 'Gt', 'Eq': 'NotEq', 'NotEq': 'Eq', 'Is': 'IsNot', 'IsNot': 'Is', 'In': 'NotIn', 'NotIn': 'In'}
 _MIRROR = {'Lt': 'Gt', 'Gt': 'Lt', 'LtE': 'GtE', 'GtE': 'LtE', 'Eq': 'Eq', 'NotEq': 'NotEq'}
+_CONTAINER_METHODS = {'append', 'extend', 'add', 'insert', 'pop', 'popleft', 'appendleft', 'remove', 'discard', 'setdefault', 'update', 'sort', 'reverse', 'write', 'put', 'put_nowait'}
 _NONCOMM = (ast.Sub, ast.Div, ast.FloorDiv, ast.Mod, ast.Pow, ast.MatMult, ast.LShift, ast.RShift)
 
 
@@ -112,7 +116,50 @@ def atoms(fn):
       if l != r and len(l) + len(r) <= 160 and not isinstance(n.left, ast.Constant) and not (isinstance(n.op, ast.Mod) and isinstance(n.left, (ast.Constant, ast.JoinedStr))):
         bins.setdefault('%s ## %s' % (type(n.op).__name__, ' ## '.join(sorted([l, r]))), []).append([l, r, getattr(n, 'lineno', 0)])
   uniq = lambda d: {k: v[0] for k, v in d.items() if len(v) == 1}
-  return {'call': uniq(calls), 'cmp': uniq(cmps), 'idx': uniq(idxs), 'bin': uniq(bins), 'params': sorted(params)}
+  # call statements made for their effect (`x.clear(y)`, `scope.invalidate()`), keyed by callee text; all callee texts of the function
+  effects, all_callees, truthy = {}, set(), set()
+  for n in _own_nodes(fn):
+    if isinstance(n, ast.Call):
+      all_callees.add(astu.src(n.func)[-80:])
+      all_callees.add((astu.call_tail(n) or ''))
+    if isinstance(n, ast.Expr) and isinstance(n.value, ast.Call) and not _in_message(n.value):
+      nm = astu.call_name(n.value) or ''
+      tail = astu.call_tail(n.value) or ''
+      if tail in _CONTAINER_METHODS or nm.startswith('logging.') or nm.startswith('warnings.') or nm in ('print', 'super') or tail in ('record_event', 'warn', 'info', 'debug'):
+        continue
+      effects.setdefault(astu.src(n.value.func)[-80:], []).append(getattr(n, 'lineno', 0))
+    # operands tested by truthiness
+    tests = []
+    if isinstance(n, (ast.If, ast.While, ast.IfExp)):
+      tests = [n.test]
+    elif isinstance(n, ast.BoolOp):
+      tests = list(n.values)
+    elif isinstance(n, ast.UnaryOp) and isinstance(n.op, ast.Not):
+      tests = [n.operand]
+    for te in tests:
+      while isinstance(te, ast.UnaryOp) and isinstance(te.op, ast.Not):
+        te = te.operand
+      if isinstance(te, (ast.Name, ast.Attribute)) and astu.dotted(te):
+        truthy.add(astu.dotted(te))
+  # `X is None` / `X is not None` / `X is False` ... per operand X
+  nonecmp = {}
+  for n in _own_nodes(fn):
+    if isinstance(n, ast.Compare) and len(n.ops) == 1 and isinstance(n.ops[0], (ast.Is, ast.IsNot, ast.Eq, ast.NotEq)) and isinstance(n.comparators[0], ast.Constant) and n.comparators[0].value in (None, False) \
+        and not isinstance(n.comparators[0].value, int if n.comparators[0].value is None else str) and astu.dotted(n.left):
+      nonecmp.setdefault(astu.dotted(n.left), []).append(repr(n.comparators[0].value))
+  return {'call': uniq(calls), 'cmp': uniq(cmps), 'idx': uniq(idxs), 'bin': uniq(bins), 'params': sorted(params),
+          'fx': {k: v[0] for k, v in effects.items() if len(v) == 1}, 'callees': sorted(all_callees), 'truthy': sorted(truthy), 'nonecmp': {k: sorted(set(v)) for k, v in nonecmp.items()}}
+
+
+def call_counts(tree):
+  """How often each function / method name is called anywhere in a module."""
+  out = {}
+  for n in ast.walk(tree):
+    if isinstance(n, ast.Call):
+      t = astu.call_tail(n) or ''
+      if t:
+        out[t] = out.get(t, 0) + 1
+  return out
 
 
 def table(repo, rels):
@@ -121,9 +168,10 @@ def table(repo, rels):
     if rel not in repo._paths:
       continue
     m = repo._load(rel)
+    out['#calls|' + rel] = call_counts(m._tree)
     for q, f in m._funcs.items():
       a = atoms(f.node)
-      if a['call'] or a['cmp'] or a['idx'] or a['bin']:
+      if a['call'] or a['cmp'] or a['idx'] or a['bin'] or a['fx'] or a['nonecmp']:
         out['%s|%s' % (rel, q)] = a
   return out
 
@@ -132,7 +180,7 @@ def _tail(callee):
   return callee.split('.')[-1].split('(')[0]
 
 
-def compare(R, f, ref, now):
+def compare(R, f, ref, now, module_funcs=None, counts=None, repo=None):
   """Report D1-D6 differences between the reference atoms and the current atoms of one function."""
   n_cmp = 0
   q = f.qual
@@ -185,6 +233,30 @@ def compare(R, f, ref, now):
     if nop != rop and nop != _COMPLEMENT.get(rop):
       R.fail(key_of(f, 'relation between %s and %s' % (l, r)), (f, line),
              'the test between `%s` and `%s` uses `%s`; on the reference tree it is `%s` (and the change is not the inversion of the test): a boundary or a whole class of inputs is now treated differently' % (l, r, nop, rop))
+  # D9: a call statement made for its effect is gone: no call with that callee text (nor that method / function name) anywhere in the function any more
+  for callee, line in (ref.get('fx') or {}).items():
+    tail = _tail(callee)
+    if callee in now.get('callees', ()) or tail in now.get('callees', ()):
+      continue
+    if module_funcs is not None and '.' not in callee and callee not in module_funcs:
+      continue  # the called helper itself was removed / inlined
+    if counts is not None and counts[1].get(tail, 0) >= counts[0].get(tail, 0):
+      continue  # the call moved to another function of the module (a helper was extracted)
+    if repo is not None:
+      from . import evid
+      try:
+        if evid.calls_deep(repo, f, lambda y, _t=tail: (astu.call_tail(y) or '') == _t, depth=3):
+          continue  # still made through a function this one calls
+      except Exception:
+        continue
+    n_cmp += 1
+    R.fail(key_of(f, 'effect call %s(...) is still made' % callee), f, '`%s(...)` is a statement of %s on the reference tree (line %d) made for its effect; neither it nor any other call of `%s` is left in the function: that effect no longer happens' % (callee, q, line, tail))
+  # D10: an operand compared with None / False on the reference tree is now only tested by truthiness
+  for x, consts in (ref.get('nonecmp') or {}).items():
+    if x in (now.get('nonecmp') or {}) or x not in now.get('truthy', ()) or x in ref.get('truthy', ()):
+      continue
+    n_cmp += 1
+    R.fail(key_of(f, '`%s` compared with %s' % (x, '/'.join(consts))), f, '`%s` is compared with %s on the reference tree; now it is only tested by truthiness, which also treats 0, 0.0, empty containers and empty filters as "absent" / "off"' % (x, ' / '.join(consts)))
   for base, (rv, _l) in ref['idx'].items():
     cur = now['idx'].get(base)
     if cur is None:
@@ -212,13 +284,14 @@ def run(R, repo, rels):
   for rel in rels:
     R.require(rel in repo._paths, 'anchor file %s is missing' % rel)
     m = repo.mod(rel)
+    now_counts = call_counts(m.tree)
     nf = nc = 0
     for q, f in sorted(m.funcs.items()):
       ref = tab.get('%s|%s' % (rel, q))
       if not ref:
         continue
       nf += 1
-      nc += compare(R, f, ref, atoms(f.node))
+      nc += compare(R, f, ref, atoms(f.node), module_funcs={qq.split('.')[-1] for qq in m.funcs}, counts=(tab.get('#calls|' + rel) or {}, now_counts), repo=repo)
       sref = stab.get('%s|%s' % (rel, q))
       if sref:
         nc += compare_statements(R, f, sref, statements(f.node))
